@@ -16,6 +16,7 @@ class PBNet:
 
 def make_pb_network(env, names, maxQ, maxR):
     nodes, cfgs = [], []
+    env.new_clock()
     for i, n in enumerate(names):
         cfg = N.FakeConfig(names)
         node = env.V.virtualNode(cfg.hostDict[n], cfg, maxQubits=maxQ[i], maxRegisters=maxR[i])
@@ -77,7 +78,7 @@ def flush(net, limit=10000):
     return n
 
 
-def settle(net, horizon=400.0, step=0.25):
+def settle(net, horizon=120.0, step=0.25):
     """run to quiescence: flush links, then advance the virtual clock while timers are pending (bounded horizon)"""
     t = 0.0
     flush(net)
